@@ -452,6 +452,11 @@ func (fe *FnExec) doIndexAddr(fr *frame, st *State, x *ssa.IndexAddr) Val {
 		sl = fe.freshVal(x.X.Type(), "sl").(SliceV)
 	}
 	fe.oblige(fr, fr.ords[x], []string{"C09"}, st.pc, tAnd(sx("<=", "0", i), sx("<", i, sl.Len)), x.Pos(), "slice index in range")
+	if _, isStruct := et.Underlying().(*types.Struct); isStruct {
+		// elements of struct type live in the field maps, keyed by an abstract element address
+		fe.eng.noteUFun("elemaddr", 2)
+		return PtrV{Base: sx("elemaddr", sl.Ref, i), Prefix: typeName(et), Pointee: et}
+	}
 	p := PtrV{ElemOf: &sl, Idx: i, Pointee: et}
 	return p
 }
